@@ -5,7 +5,8 @@ import McpModel.OAuth.Challenge
 Driver for E11 (C15).
 
 Flow records:   `auth st=… cimd=… pre=… dcr=… u=<url> hm=… ch=… hdr=… prm=… asm=… reg=… tok=… f=… [init=… sty=…]`
-                observation `out=<outcome> inst=<0|1> log=<events>`; the driver runs `authorize` on the
+                observation `out=<outcome> inst=<0|1> log=<events>` (`Authorize` returning nil is `ok` both
+                for a completed flow and for the 403-without-insufficient_scope skip); the driver runs `authorize` on the
                 world of the record, prints the same form, and evaluates the C15 monitor on the
                 IMPLEMENTATION's observation (request log, outcome, token source changed?) — the monitor
                 uses only the specification predicates and the scripted world, never `authorize`.
@@ -199,7 +200,6 @@ structure Obs where
   out : String
   inst : Bool
   events : List Event
-  unknownCred : Bool
 
 def parseEvent (t : String) : Option Event :=
   match t.splitOn ":" with
@@ -215,7 +215,7 @@ def parseObs (s : String) : Option Obs := do
   let inst ← m.lookup "inst"
   let lg ← m.lookup "log"
   let evs ← if lg == "." then some [] else (lg.splitOn ",").mapM parseEvent
-  some { out := out, inst := inst == "1", events := evs, unknownCred := (lg.splitOn "?").length > 1 && false }
+  some { out := out, inst := inst == "1", events := evs }
 
 /-! ### The C15 monitor (specification predicates only) -/
 
